@@ -778,7 +778,12 @@ func checkPanicLedger(c *core.Ctx, l *core.Ledger, dl []*ssa.Function, inD func(
 				k := key("index")
 				if ok, why := indexGuarded(f, x.X, x.Index, x.Block()); ok {
 					l.Ok("PANIC", k, pos, why)
+				} else if ok2, why2 := indexSafeForAllBytes(c, f); ok2 {
+					l.Ok("PANIC", k, pos, why2)
 				} else {
+					if why2 != "" {
+						why = why2
+					}
 					l.Bad("PANIC", k, pos, "index not provably in range: "+core.Sym(x.X)+"["+core.Sym(x.Index)+"]: "+why)
 				}
 			case *ssa.Index:
@@ -1368,3 +1373,54 @@ func checkSkipRead(c *core.Ctx, l *core.Ledger, m *wireModel) {
 }
 
 var _ = ast.Inspect
+
+// indexSafeForAllBytes: f takes one one-byte integer parameter; the function is
+// explored once per value of that parameter (finite-domain constant
+// propagation) and no value reaches an out-of-range index of a fixed-length
+// array or literal table.
+func indexSafeForAllBytes(c *core.Ctx, f *ssa.Function) (bool, string) {
+	if len(f.Params) != 1 {
+		return false, ""
+	}
+	b, ok := f.Params[0].Type().Underlying().(*types.Basic)
+	if !ok || (b.Kind() != types.Uint8 && b.Kind() != types.Int8) {
+		return false, ""
+	}
+	lo, hi := int64(0), int64(255)
+	if b.Kind() == types.Int8 {
+		lo, hi = -128, 127
+	}
+	for k := lo; k <= hi; k++ {
+		kv := k
+		paths, ok := c.FiniteEval(f, core.FEOpts{Key: func(v ssa.Value) (core.CVal, bool) {
+			if p, isP := v.(*ssa.Parameter); isP && p == f.Params[0] {
+				return core.CVal{Kind: core.CInt, I: kv}, true
+			}
+			return core.CVal{}, false
+		}})
+		if !ok {
+			return false, "too many paths"
+		}
+		for _, p := range paths {
+			if strings.HasPrefix(p.Panic, "index ") {
+				return false, fmt.Sprintf("for argument %d: %s", kv, p.Panic)
+			}
+			// an index whose value stays undecided is not covered by this argument
+		}
+	}
+	// every index operand of f must be decided by the parameter: it is the parameter itself (possibly converted)
+	decided := true
+	core.Instrs(f, func(in ssa.Instruction) {
+		if ia, ok := in.(*ssa.IndexAddr); ok {
+			if core.Unop(ia.Index) != ssa.Value(f.Params[0]) {
+				if _, isC := ia.Index.(*ssa.Const); !isC {
+					decided = false
+				}
+			}
+		}
+	})
+	if !decided {
+		return false, ""
+	}
+	return true, "explored for each of the 256 values of its one-byte parameter: no value reaches an index outside the table"
+}
